@@ -95,6 +95,29 @@ end
 equal sets / multisets of child hashes serialise equally; no injectivity is involved) -/
 def HashSound (c : IOCfg) (hashOf : PyVal → String) : Prop := ∀ x y, verdict c hashOf x y = true → hashOf x = hashOf y
 
+/-- the same, for the values of a domain `D` (e.g. values without numerically aliased keys) -/
+def HashSoundOn (D : PyVal → Prop) (c : IOCfg) (hashOf : PyVal → String) : Prop :=
+  ∀ x y, D x → D y → verdict c hashOf x y = true → hashOf x = hashOf y
+
+/-- a domain that contains the children of its members -/
+structure Closed (D : PyVal → Prop) : Prop where
+  list : ∀ xs, D (.list xs) → ∀ x ∈ xs, D x
+  tuple : ∀ xs, D (.tuple xs) → ∀ x ∈ xs, D x
+  dict : ∀ kvs, D (.dict kvs) → ∀ p ∈ kvs, D p.2
+
+theorem hashSoundOn_of (c : IOCfg) (hashOf : PyVal → String) (h : HashSound c hashOf) (D : PyVal → Prop) : HashSoundOn D c hashOf :=
+  fun x y _ _ hv => h x y hv
+
+theorem closed_true : Closed (fun _ => True) := ⟨fun _ _ _ _ => trivial, fun _ _ _ _ => trivial, fun _ _ _ _ => trivial⟩
+
+theorem dictGet_mem {kvs : List (PyVal × PyVal)} {k v : PyVal} (h : dictGet kvs k = some v) : ∃ k', (k', v) ∈ kvs := by
+  unfold dictGet at h
+  cases hf : kvs.find? (fun p => keyEq p.1 k) with
+  | none => simp [hf] at h
+  | some p =>
+    simp only [hf, Option.map_some, Option.some.injEq] at h
+    exact ⟨p.1, by rw [← h]; exact List.mem_of_find?_eq_some hf⟩
+
 /-! ### small facts -/
 
 theorem tree_append (a b : Result) : (a ++ b).tree = a.tree ++ b.tree := rfl
@@ -284,9 +307,9 @@ theorem ioIter_empty_iff (c : IOCfg) (P : Pairs) (steps : List Step) (t1 t2 : Li
 
 /-- a paired added / removed item never has an empty diff: their hashes differ, and an empty diff
 would make them hash equally -/
-theorem iter_pairs_nonempty (c : IOCfg) (hashOf : PyVal → String) (P : Pairs) (hs : HashSound c hashOf) (hc : c.thrNum ≤ c.thrDen)
-    (xs ys : List PyVal) (steps : List Step)
-    (hsound : ∀ x, x ∈ xs → ∀ (y : PyVal) (steps : List Step), (diffV c hashOf P steps x y).tree = [] → verdict c hashOf x y = true) :
+theorem iter_pairs_nonempty (D : PyVal → Prop) (c : IOCfg) (hashOf : PyVal → String) (P : Pairs) (hs : HashSoundOn D c hashOf) (hc : c.thrNum ≤ c.thrDen)
+    (xs ys : List PyVal) (steps : List Step) (hDx : ∀ x ∈ xs, D x) (hDy : ∀ y ∈ ys, D y)
+    (hsound : ∀ x, x ∈ xs → ∀ (y : PyVal) (steps : List Step), D x → D y → (diffV c hashOf P steps x y).tree = [] → verdict c hashOf x y = true) :
     ∀ a ∈ addedOf (hashTable hashOf xs) (hashTable hashOf ys), ∀ r ∈ removedOf (hashTable hashOf xs) (hashTable hashOf ys), ∀ p1 p2,
       ((rows c hashOf P steps xs ys).get r.idx0 a.idx0 p1 p2).tree ≠ [] := by
   intro a ha r hr p1 p2 hempty
@@ -296,8 +319,9 @@ theorem iter_pairs_nonempty (c : IOCfg) (hashOf : PyVal → String) (P : Pairs) 
   obtain ⟨_, hrx, hrh⟩ := hashTable_good hashOf xs r hr'.1
   rw [rows_get c hashOf P steps xs ys r.idx0 a.idx0 p1 p2 r.item a.item hrx hax] at hempty
   have hmem : r.item ∈ xs := List.mem_of_getElem? hrx
-  have hv := hsound r.item hmem a.item _ hempty
-  have heq := hs r.item a.item hv
+  have hmemy : a.item ∈ ys := List.mem_of_getElem? hax
+  have hv := hsound r.item hmem a.item _ (hDx _ hmem) (hDy _ hmemy) hempty
+  have heq := hs r.item a.item (hDx _ hmem) (hDy _ hmemy) hv
   have : a.h = r.h := by rw [hah, hrh, heq]
   have hcontra := ha'.2
   simp only [Bool.not_eq_true', List.any_eq_false] at hcontra
@@ -367,12 +391,12 @@ theorem ordered_empty_iff (children : List (PyVal × Result)) (vchildren : List 
 set_option maxHeartbeats 1000000
 mutual
 /-- **empty ⇔ verdict**, for every pairing -/
-theorem diffV_empty_iff (c : IOCfg) (hashOf : PyVal → String) (P : Pairs) (hs : HashSound c hashOf) (hc : c.thrNum ≤ c.thrDen) :
-    ∀ (a b : PyVal) (steps : List Step), (diffV c hashOf P steps a b).tree = [] ↔ verdict c hashOf a b = true
-  | .dict kvs1, b, steps => by
+theorem diffV_empty_iff (D : PyVal → Prop) (hD : Closed D) (c : IOCfg) (hashOf : PyVal → String) (P : Pairs) (hs : HashSoundOn D c hashOf) (hc : c.thrNum ≤ c.thrDen) :
+    ∀ (a b : PyVal) (steps : List Step), D a → D b → ((diffV c hashOf P steps a b).tree = [] ↔ verdict c hashOf a b = true)
+  | .dict kvs1, b, steps, da, db => by
     cases b with
     | dict kvs2 =>
-      have hcorr := diffKVs_corr c hashOf P hs hc kvs1 kvs2 (keysOf (toDCfg c) [] kvs2) steps
+      have hcorr := diffKVs_corr D hD c hashOf P hs hc kvs1 kvs2 (keysOf (toDCfg c) [] kvs2) steps (hD.dict kvs1 da) (hD.dict kvs2 db)
       unfold diffV verdict
       simp only [keysOf_steps c steps]
       generalize hk1 : keysOf (toDCfg c) [] kvs1 = k1 at *
@@ -412,85 +436,86 @@ theorem diffV_empty_iff (c : IOCfg) (hashOf : PyVal → String) (P : Pairs) (hs 
         · simp only [tree_append, List.append_eq_nil_iff, List.map_eq_nil_iff]
           intro h; exact hadd h.1.1
     | _ => all_goals simp [diffV, verdict]
-  | .list xs, b, steps => by
+  | .list xs, b, steps, da, db => by
     cases b with
     | list ys =>
       unfold diffV verdict
       simp only
       rw [ioIter_empty_iff c P steps _ _ _ (fun e he => (hashTable_good hashOf xs e he).1) (fun e he => (hashTable_good hashOf ys e he).1)
-        (iter_pairs_nonempty c hashOf P hs hc xs ys steps (diffVL_sound c hashOf P hs hc xs))]
+        (iter_pairs_nonempty D c hashOf P hs hc xs ys steps (hD.list xs da) (hD.list ys db) (diffVL_sound D hD c hashOf P hs hc xs))]
       simp [isEmpty_iff_nil, and_assoc]
     | _ => all_goals simp [diffV, verdict]
-  | .tuple xs, b, steps => by
+  | .tuple xs, b, steps, da, db => by
     cases b with
     | tuple ys =>
       unfold diffV verdict
       simp only
       rw [ioIter_empty_iff c P steps _ _ _ (fun e he => (hashTable_good hashOf xs e he).1) (fun e he => (hashTable_good hashOf ys e he).1)
-        (iter_pairs_nonempty c hashOf P hs hc xs ys steps (diffVL_sound c hashOf P hs hc xs))]
+        (iter_pairs_nonempty D c hashOf P hs hc xs ys steps (hD.tuple xs da) (hD.tuple ys db) (diffVL_sound D hD c hashOf P hs hc xs))]
       simp [isEmpty_iff_nil, and_assoc]
     | _ => all_goals simp [diffV, verdict]
-  | .set xs, b, steps => by
+  | .set xs, b, steps, da, db => by
     cases b with
     | set ys =>
       simp only [diffV, verdict, isEmpty_iff_nil]
       exact ⟨diffSet_steps hashOf steps [] xs ys, diffSet_steps hashOf [] steps xs ys⟩
     | _ => all_goals simp [diffV, verdict]
-  | .frozenset xs, b, steps => by
+  | .frozenset xs, b, steps, da, db => by
     cases b with
     | frozenset ys =>
       simp only [diffV, verdict, isEmpty_iff_nil]
       exact ⟨diffSet_steps hashOf steps [] xs ys, diffSet_steps hashOf [] steps xs ys⟩
     | _ => all_goals simp [diffV, verdict]
-  | .none, b, steps => by
+  | .none, b, steps, da, db => by
     simp only [diffV, verdict]
     split
     · rename_i h; simp at h; simp [h]
     · rename_i h; simp at h; simp only [h, beq_self_eq_true, Bool.true_and, isEmpty_iff_nil]
       exact ⟨leafDiff_steps steps [] _ _, leafDiff_steps [] steps _ _⟩
-  | .bool x, b, steps => by
+  | .bool x, b, steps, da, db => by
     simp only [diffV, verdict]
     split
     · rename_i h; simp at h; simp [h]
     · rename_i h; simp at h; simp only [h, beq_self_eq_true, Bool.true_and, isEmpty_iff_nil]
       exact ⟨leafDiff_steps steps [] _ _, leafDiff_steps [] steps _ _⟩
-  | .int x, b, steps => by
+  | .int x, b, steps, da, db => by
     simp only [diffV, verdict]
     split
     · rename_i h; simp at h; simp [h]
     · rename_i h; simp at h; simp only [h, beq_self_eq_true, Bool.true_and, isEmpty_iff_nil]
       exact ⟨leafDiff_steps steps [] _ _, leafDiff_steps [] steps _ _⟩
-  | .float n sc, b, steps => by
+  | .float n sc, b, steps, da, db => by
     simp only [diffV, verdict]
     split
     · rename_i h; simp at h; simp [h]
     · rename_i h; simp at h; simp only [h, beq_self_eq_true, Bool.true_and, isEmpty_iff_nil]
       exact ⟨leafDiff_steps steps [] _ _, leafDiff_steps [] steps _ _⟩
-  | .str x, b, steps => by
+  | .str x, b, steps, da, db => by
     simp only [diffV, verdict]
     split
     · rename_i h; simp at h; simp [h]
     · rename_i h; simp at h; simp only [h, beq_self_eq_true, Bool.true_and, isEmpty_iff_nil]
       exact ⟨leafDiff_steps steps [] _ _, leafDiff_steps [] steps _ _⟩
-  | .bytes x, b, steps => by
+  | .bytes x, b, steps, da, db => by
     simp only [diffV, verdict]
     split
     · rename_i h; simp at h; simp [h]
     · rename_i h; simp at h; simp only [h, beq_self_eq_true, Bool.true_and, isEmpty_iff_nil]
       exact ⟨leafDiff_steps steps [] _ _, leafDiff_steps [] steps _ _⟩
 /-- an empty diff of an item of `xs` against anything means the verdict holds for them -/
-theorem diffVL_sound (c : IOCfg) (hashOf : PyVal → String) (P : Pairs) (hs : HashSound c hashOf) (hc : c.thrNum ≤ c.thrDen) :
-    ∀ (xs : List PyVal) (x : PyVal), x ∈ xs → ∀ (y : PyVal) (steps : List Step),
+theorem diffVL_sound (D : PyVal → Prop) (hD : Closed D) (c : IOCfg) (hashOf : PyVal → String) (P : Pairs) (hs : HashSoundOn D c hashOf) (hc : c.thrNum ≤ c.thrDen) :
+    ∀ (xs : List PyVal) (x : PyVal), x ∈ xs → ∀ (y : PyVal) (steps : List Step), D x → D y →
       (diffV c hashOf P steps x y).tree = [] → verdict c hashOf x y = true
-  | x0 :: xs, _, .head _, y, steps, h => (diffV_empty_iff c hashOf P hs hc x0 y steps).1 h
-  | _ :: xs, x, .tail _ hx', y, steps, h => diffVL_sound c hashOf P hs hc xs x hx' y steps h
+  | x0 :: xs, _, .head _, y, steps, dx, dy, h => (diffV_empty_iff D hD c hashOf P hs hc x0 y steps dx dy).1 h
+  | _ :: xs, x, .tail _ hx', y, steps, dx, dy, h => diffVL_sound D hD c hashOf P hs hc xs x hx' y steps dx dy h
 /-- the child diffs and the child verdicts of a dictionary correspond entry by entry -/
-theorem diffKVs_corr (c : IOCfg) (hashOf : PyVal → String) (P : Pairs) (hs : HashSound c hashOf) (hc : c.thrNum ≤ c.thrDen) :
+theorem diffKVs_corr (D : PyVal → Prop) (hD : Closed D) (c : IOCfg) (hashOf : PyVal → String) (P : Pairs) (hs : HashSoundOn D c hashOf) (hc : c.thrNum ≤ c.thrDen) :
     ∀ (rest kvs2 : List (PyVal × PyVal)) (k2s : List PyVal) (steps : List Step),
+      (∀ p ∈ rest, D p.2) → (∀ p ∈ kvs2, D p.2) →
       Corr (diffKVs c hashOf P steps rest kvs2 k2s) (verdictKVs c hashOf rest kvs2 k2s)
-  | [], _, _, _ => by simp only [diffKVs, verdictKVs]; exact Corr.nil
-  | (k1, v1) :: rest, kvs2, k2s, steps => by
-    have ih := diffKVs_corr c hashOf P hs hc rest kvs2 k2s steps
+  | [], _, _, _, _, _ => by simp only [diffKVs, verdictKVs]; exact Corr.nil
+  | (k1, v1) :: rest, kvs2, k2s, steps, hd1, hd2 => by
+    have ih := diffKVs_corr D hD c hashOf P hs hc rest kvs2 k2s steps (fun p hp => hd1 p (List.mem_cons_of_mem _ hp)) hd2
     simp only [diffKVs, verdictKVs]
     by_cases hp : (c.ignorePrivate && isPrivate k1) = true
     · simp only [hp, if_true]; exact ih
@@ -503,7 +528,8 @@ theorem diffKVs_corr (c : IOCfg) (hashOf : PyVal → String) (P : Pairs) (hs : H
         | none => simp only; exact ih
         | some v2 =>
           simp only
-          exact Corr.cons _ _ _ _ rfl (diffV_empty_iff c hashOf P hs hc v1 v2 _) ih
+          obtain ⟨k', hk'⟩ := dictGet_mem hg
+          exact Corr.cons _ _ _ _ rfl (diffV_empty_iff D hD c hashOf P hs hc v1 v2 _ (hd1 (k1, v1) (List.mem_cons_self ..)) (hd2 (k', v2) hk')) ih
 end
 
 end DiffIO
